@@ -580,22 +580,30 @@ func (l *Lexer) SkipStreamEOL() error {
 // ReadBytes reads exactly n bytes from the underlying reader.
 // Used for reading binary stream data where tokenization is not appropriate.
 func (l *Lexer) ReadBytes(n int) ([]byte, error) {
-	data := make([]byte, n)
-	totalRead := 0
+	// n comes from the file (/Length). Read in bounded steps so that memory is
+	// committed only for bytes that really arrive, not for whatever n claims.
+	const step = 1 << 20
+	first := n
+	if first > step {
+		first = step
+	}
+	data := make([]byte, 0, first)
 
-	for totalRead < n {
-		bytesRead, err := l.reader.Read(data[totalRead:])
-		totalRead += bytesRead
+	for len(data) < n {
+		want := n - len(data)
+		if want > step {
+			want = step
+		}
+		buf := make([]byte, want)
+		bytesRead, err := io.ReadFull(l.reader, buf)
+		data = append(data, buf[:bytesRead]...)
 		l.pos += int64(bytesRead)
 
-		if err == io.EOF && totalRead < n {
-			return data[:totalRead], fmt.Errorf("unexpected EOF: expected %d bytes, got %d", n, totalRead)
+		if err == io.EOF || err == io.ErrUnexpectedEOF {
+			return data, fmt.Errorf("unexpected EOF: expected %d bytes, got %d", n, len(data))
 		}
-		if err != nil && err != io.EOF {
-			return data[:totalRead], err
-		}
-		if err == io.EOF {
-			break
+		if err != nil {
+			return data, err
 		}
 	}
 
